@@ -147,7 +147,7 @@ def conditions(tier):
 
     def add(c, sh):
         if sh in heavy:
-            conds.extend(schedlib.with_prefixes(c, 2))
+            conds.extend(schedlib.with_prefixes(c, 3 if (sh in ("indep3", "diamond4") and c["shard"].get("token")) else 2))
         else:
             conds.append(c)
 
